@@ -35,6 +35,7 @@ type Part struct {
 	Ts       []int64 `json:"ts"`    // timestamp (ms) of the record at offset i, i in 0..end-1
 	Lerr     int     `json:"lerr"`  // error code the leader answers to ListOffsets for this partition
 	Merr     int     `json:"merr"`  // error code reported in metadata for this partition
+	Lerrt    int     `json:"lerrt"` // error code the leader answers to ListOffsets lookups by timestamp (ts >= 0) only
 }
 
 type Topic struct {
@@ -186,6 +187,7 @@ func build(job *Job) *env {
 			p.ISR = append([]int{}, ps.Isr...)
 			p.Err = int16(ps.Merr)
 			p.ListErr = int16(ps.Lerr)
+			p.ListErrTime = int16(ps.Lerrt)
 			var recs []krec.Rec
 			for o := int64(0); o < ps.End; o++ {
 				recs = append(recs, krec.Rec{Offset: o, TsMs: ps.Ts[o], Key: []byte(fmt.Sprintf("k%d", o)), Value: []byte(fmt.Sprintf("v%d", o))})
